@@ -164,8 +164,89 @@ def check_defaults(ctx, case, y, y2, ty, doc, built, src):
                 check_defaults(ctx, case, getattr(y, name), getattr(y2, name), ft, doc[name], built, src)
 
 
+# --------------------------------------------------------------------------- further main classes reaching the same classes
+
+WRAP_SHAPES = ['direct', 'direct', 'list', 'optional', 'dict']
+
+
+def gen_wrappers(rng, ty, fresh, meta):
+    """One or two further *main* classes whose single field holds the root class of the model (directly, in a list, under
+    Optional, as dict values), stating the same Meta as the root: every class of the model is then reached through more
+    than one main class (stand-alone and nested), in an order drawn per case.  The library generates the code for a
+    nested class once per enclosing main class and keeps per-class tables across these generations, so which main class
+    came first is part of the input."""
+    out = []
+    for _ in range(rng.choice([1, 1, 2])):
+        shape = rng.choice(WRAP_SHAPES)
+        inner = {'direct': ty, 'list': T('list', ty), 'optional': T('optional', ty), 'dict': T('dict', T('str'), ty)}[shape]
+        fname = rng.choice(['w', 'held', 'wrapped_item'])
+        info = {'name': fresh('W'), 'fields': [{'name': fname}], 'wizard': True, 'meta': dict(meta) if meta is not None else None}
+        out.append(({'k': 'cls', 'info': info, 'ftys': [[fname, inner]]}, shape, fname))
+    return out
+
+
+def wrap_doc(shape, fname, d):
+    return {fname: {'direct': d, 'optional': d, 'list': [d], 'dict': {'k': d}}[shape]}
+
+
+def unwrap_obj(shape, fname, y):
+    v = getattr(y, fname)
+    return {'direct': v, 'optional': v, 'list': v[0] if shape == 'list' else None, 'dict': v['k'] if shape == 'dict' else None}[shape]
+
+
+def judge_wrapped(ctx, prefix, engine_word, case, wty, shape, fname, Cls, ty, d, built, src, reqs, pend, op):
+    """the same document, wrapped, through a further main class: same reference, same clauses"""
+    from dataclass_wizard import fromdict
+    from dataclass_wizard.errors import MissingFields
+    wd = wrap_doc(shape, fname, d)
+    wcase = dict(case, via=wty['info']['name'], shape=shape)
+    ctx.seen(prefix + ':wrapped', wcase, nontrivial=True)
+    before = copy.deepcopy(wd)
+    out = load_outcome(lambda: fromdict(Cls, wd))
+    exp = expect(wty, wd)
+    if exp is None:
+        if out[0] == 'err':
+            ctx.fail(prefix + ':unexpected-error', wcase, f'no required key deleted, but the {engine_word}load through the enclosing class '
+                     f'{wty["info"]["name"]} [{shape}] raised {type(out[1]).__name__}: {str(out[1])[:300]}', detail=src)
+        else:
+            y2 = fromdict(Cls, copy.deepcopy(before))
+            check_defaults(ctx, wcase, unwrap_obj(shape, fname, out[1]), unwrap_obj(shape, fname, y2), ty, d, built, src)
+    else:
+        cname, missing = exp
+        if out[0] == 'ok':
+            ctx.fail(prefix + ':no-error', wcase, f'required field(s) {missing} of {cname} deleted, but the {engine_word}load through the enclosing '
+                     f'class returned {out[1]!r}'[:800], detail=src)
+        elif not isinstance(out[1], MissingFields):
+            ctx.fail(prefix + ':wrong-error', wcase, f'required field(s) {missing} of {cname} deleted: expected MissingFields, got '
+                     f'{type(out[1]).__name__}: {str(out[1])[:200]}', detail=src)
+        else:
+            e = out[1]
+            got = sorted(e.missing_fields)
+            if got != missing or e.class_name != cname:
+                ctx.fail(prefix + ':missing-list', wcase, f'{engine_word}MissingFields(class={e.class_name}, missing={got}) through the enclosing class, '
+                         f'expected class={cname}, missing={missing}', detail=src)
+            try:
+                assert isinstance(str(e), str)
+            except Exception as ee:            # noqa
+                ctx.fail(prefix + ':message', wcase, f'str(MissingFields) raised {ee!r}', detail=src)
+    st = model.StdTables()
+    st.add_json(wd)
+    reqs.append({'op': op, 'ty': model.enc_ty(wty), 'doc': model.enc_j(wd), 'std': st.build()})
+    pend.append((wcase, out, built))
+
+
+BIND_OFFSET = 20_000_000
+
+
 def run(ctx: C.Ctx):
-    v1streams.run_streams(ctx, run_default, run_v1)
+    import random
+    from harness.props import c09_bind
+    bind_rng = random.Random(f'{ctx.prop_id}:{ctx.seed}:bind')
+    if ctx.only is None or ctx.only < BIND_OFFSET:
+        v1streams.run_streams(ctx, run_default, run_v1)
+    if ctx.only is None or ctx.only >= BIND_OFFSET:
+        # third stream: fields bound through aliases / paths x absent keys (c09_bind.py)
+        c09_bind.run(ctx, bind_rng, BIND_OFFSET)
 
 
 def run_default(ctx: C.Ctx):
@@ -183,8 +264,11 @@ def run_default(ctx: C.Ctx):
     idx = 0
     for ci in range(ncls):
         ty = gen_c09_cls(rng, rng.choice([0, 1, 1, 2]))
+        wraps = gen_wrappers(rng, ty, model.fresh, None)
+        order = rng.sample(range(-1, len(wraps)), len(wraps) + 1)        # -1 = the root class itself
         try:
-            built = model.Built(ty)
+            built = model.Built(T('tuple', ty, *[w[0] for w in wraps]))
+            Root = built.get(ty['info']['name'])
         except Exception as e:
             ctx.count('build_error')
             ctx.notes.setdefault('build_errors', []).append(repr(e)[:300])
@@ -208,43 +292,49 @@ def run_default(ctx: C.Ctx):
                     continue
                 d = delete_paths(doc, S)
                 case = {'ty': ty, 'doc': repr(d)[:500], 'deleted': repr(S)}
-                ctx.seen('absent', case, nontrivial=bool(S))
-                src = dict(src=built.source)
-                before = copy.deepcopy(d)
-                out = load_outcome(lambda: fromdict(built.root, d))
-                exp = expect(ty, d)
-                if exp is None:
-                    if out[0] == 'err':
-                        ctx.fail('absent:unexpected-error', case, f'no required key deleted, but load raised {type(out[1]).__name__}: {str(out[1])[:300]}', detail=src)
+                for tgt in order:
+                    if tgt >= 0:
+                        wty, shape, fname = wraps[tgt]
+                        judge_wrapped(ctx, 'absent', '', case, wty, shape, fname, built.get(wty['info']['name']), ty, d, built,
+                                      dict(src=built.source), reqs, pend, 'load')
+                        continue
+                    ctx.seen('absent', case, nontrivial=bool(S))
+                    src = dict(src=built.source)
+                    before = copy.deepcopy(d)
+                    out = load_outcome(lambda: fromdict(Root, d))
+                    exp = expect(ty, d)
+                    if exp is None:
+                        if out[0] == 'err':
+                            ctx.fail('absent:unexpected-error', case, f'no required key deleted, but load raised {type(out[1]).__name__}: {str(out[1])[:300]}', detail=src)
+                        else:
+                            y2 = fromdict(Root, copy.deepcopy(before))
+                            check_defaults(ctx, case, out[1], y2, ty, d, built, src)
                     else:
-                        y2 = fromdict(built.root, copy.deepcopy(before))
-                        check_defaults(ctx, case, out[1], y2, ty, d, built, src)
-                else:
-                    cname, missing = exp
-                    if out[0] == 'ok':
-                        ctx.fail('absent:no-error', case, f'required field(s) {missing} of {cname} deleted, but load returned {out[1]!r}'[:800], detail=src)
-                    elif not isinstance(out[1], MissingFields):
-                        ctx.fail('absent:wrong-error', case, f'required field(s) {missing} of {cname} deleted: expected MissingFields, got {type(out[1]).__name__}: {str(out[1])[:200]}', detail=src)
-                    else:
-                        e = out[1]
-                        got = sorted(e.missing_fields)
-                        if got != missing or e.class_name != cname:
-                            key = None
-                            node = built.infos.get(cname)
-                            if node is not None and e.class_name == cname:
-                                extra = set(got) - set(missing)
-                                nodflt_noinit = {f['name'] for f in node['info']['fields'] if not f.get('init', True) and f.get('dflt') is None}
-                                if set(missing) <= set(got) and extra and extra <= nodflt_noinit:
-                                    key = 'missing-lists-init-false'
-                            ctx.fail('absent:missing-list', case, f'MissingFields(class={e.class_name}, missing={got}), expected class={cname}, missing={missing}', key=key, detail=src)
-                        try:
-                            str(e)
-                        except Exception as ee:
-                            ctx.fail('absent:message', case, f'str(MissingFields) raised {ee!r}', detail=src)
-                st = model.StdTables()
-                st.add_json(d)
-                reqs.append({'op': 'load', 'ty': model.enc_ty(ty), 'doc': model.enc_j(d), 'std': st.build()})
-                pend.append((case, out, built))
+                        cname, missing = exp
+                        if out[0] == 'ok':
+                            ctx.fail('absent:no-error', case, f'required field(s) {missing} of {cname} deleted, but load returned {out[1]!r}'[:800], detail=src)
+                        elif not isinstance(out[1], MissingFields):
+                            ctx.fail('absent:wrong-error', case, f'required field(s) {missing} of {cname} deleted: expected MissingFields, got {type(out[1]).__name__}: {str(out[1])[:200]}', detail=src)
+                        else:
+                            e = out[1]
+                            got = sorted(e.missing_fields)
+                            if got != missing or e.class_name != cname:
+                                key = None
+                                node = built.infos.get(cname)
+                                if node is not None and e.class_name == cname:
+                                    extra = set(got) - set(missing)
+                                    nodflt_noinit = {f['name'] for f in node['info']['fields'] if not f.get('init', True) and f.get('dflt') is None}
+                                    if set(missing) <= set(got) and extra and extra <= nodflt_noinit:
+                                        key = 'missing-lists-init-false'
+                                ctx.fail('absent:missing-list', case, f'MissingFields(class={e.class_name}, missing={got}), expected class={cname}, missing={missing}', key=key, detail=src)
+                            try:
+                                str(e)
+                            except Exception as ee:
+                                ctx.fail('absent:message', case, f'str(MissingFields) raised {ee!r}', detail=src)
+                    st = model.StdTables()
+                    st.add_json(d)
+                    reqs.append({'op': 'load', 'ty': model.enc_ty(ty), 'doc': model.enc_j(d), 'std': st.build()})
+                    pend.append((case, out, built))
         finally:
             built.close()
         if ctx.done(idx):
@@ -296,14 +386,20 @@ def run_v1(ctx: C.Ctx):
     reqs, pend = [], []
     idx = v1streams.OFFSET
     for ci in range(ncls):
-        ty = gen_c09_cls(rng, rng.choice([0, 1, 1, 2]), fresh=v1streams.Namer(ci), p_noinit=0.6)
+        namer = v1streams.Namer(ci)
+        ty = gen_c09_cls(rng, rng.choice([0, 1, 1, 2]), fresh=namer, p_noinit=0.6)
         kw_req = soften_kw_only(rng, ty)
         meta = {'v1': True}
-        if rng.random() < 0.25:
+        if rng.random() < 0.4:
             meta['v1_key_case'] = 'AUTO'
         ty['info']['meta'] = meta
+        wraps = gen_wrappers(rng, ty, namer, meta)
+        if kw_req:
+            wraps = []                     # a class of the recorded finding v1-kw-only-required: judged through its own root only
+        order = rng.sample(range(-1, len(wraps)), len(wraps) + 1)        # -1 = the root class itself
         try:
-            built = model.Built(ty)
+            built = model.Built(T('tuple', ty, *[w[0] for w in wraps]))
+            Root = built.get(ty['info']['name'])
         except Exception as e:
             ctx.count('build_error')
             ctx.notes.setdefault('build_errors', []).append(repr(e)[:300])
@@ -329,51 +425,57 @@ def run_v1(ctx: C.Ctx):
                     continue
                 d = delete_paths(doc, S)
                 case = {'ty': ty, 'doc': repr(d)[:500], 'deleted': repr(S), 'engine': 'v1'}
-                ctx.seen('absent:v1', case, nontrivial=bool(S))
-                src = dict(src=built.source)
-                before = copy.deepcopy(d)
-                out = load_outcome(lambda: fromdict(built.root, d))
-                kwkey = None
-                if kw_req and out[0] == 'err':
-                    # bare at the root, wrapped into a ParseError by the enclosing class's handler when nested
-                    be = out[1] if not isinstance(out[1], JSONWizardError) else getattr(out[1], 'base_error', None)
-                    if isinstance(be, TypeError) and '__init__()' in str(be):
-                        kwkey = 'v1-kw-only-required'
-                exp = expect(ty, d)
-                if exp is None:
-                    if out[0] == 'err':
-                        ctx.fail('absent:v1:unexpected-error', case, f'no required key deleted, but the v1 load raised {type(out[1]).__name__}: {str(out[1])[:300]}',
-                                 key=kwkey, detail=src)
+                for tgt in order:
+                    if tgt >= 0:
+                        wty, shape, fname = wraps[tgt]
+                        judge_wrapped(ctx, 'absent:v1', 'v1 ', case, wty, shape, fname, built.get(wty['info']['name']), ty, d, built,
+                                      dict(src=built.source), reqs, pend, 'loadv1')
+                        continue
+                    ctx.seen('absent:v1', case, nontrivial=bool(S))
+                    src = dict(src=built.source)
+                    before = copy.deepcopy(d)
+                    out = load_outcome(lambda: fromdict(Root, d))
+                    kwkey = None
+                    if kw_req and out[0] == 'err':
+                        # bare at the root, wrapped into a ParseError by the enclosing class's handler when nested
+                        be = out[1] if not isinstance(out[1], JSONWizardError) else getattr(out[1], 'base_error', None)
+                        if isinstance(be, TypeError) and '__init__()' in str(be):
+                            kwkey = 'v1-kw-only-required'
+                    exp = expect(ty, d)
+                    if exp is None:
+                        if out[0] == 'err':
+                            ctx.fail('absent:v1:unexpected-error', case, f'no required key deleted, but the v1 load raised {type(out[1]).__name__}: {str(out[1])[:300]}',
+                                     key=kwkey, detail=src)
+                        else:
+                            y2 = fromdict(Root, copy.deepcopy(before))
+                            check_defaults(ctx, case, out[1], y2, ty, d, built, src)
                     else:
-                        y2 = fromdict(built.root, copy.deepcopy(before))
-                        check_defaults(ctx, case, out[1], y2, ty, d, built, src)
-                else:
-                    cname, missing = exp
-                    if out[0] == 'ok':
-                        ctx.fail('absent:v1:no-error', case, f'required field(s) {missing} of {cname} deleted, but the v1 load returned {out[1]!r}'[:800], detail=src)
-                    elif not isinstance(out[1], MissingFields):
-                        ctx.fail('absent:v1:wrong-error', case, f'required field(s) {missing} of {cname} deleted: expected MissingFields, got '
-                                 f'{type(out[1]).__name__}: {str(out[1])[:200]}', key=kwkey, detail=src)
-                    else:
-                        e = out[1]
-                        got = sorted(e.missing_fields)
-                        if got != missing or e.class_name != cname:
-                            node = built.infos.get(cname)
-                            noinit = {f['name'] for f in node['info']['fields'] if not f.get('init', True)} if node else set()
-                            what = f'v1 MissingFields(class={e.class_name}, missing={got}), expected class={cname}, missing={missing}'
-                            if set(got) & noinit:
-                                what += f'; init=False field(s) {sorted(set(got) & noinit)} demanded from the document'
-                            ctx.fail('absent:v1:missing-list', case, what, detail=src)
-                        try:
-                            s_ = str(e)
-                            assert isinstance(s_, str)
-                        except Exception as ee:
-                            ctx.fail('absent:v1:message', case, f'str(MissingFields) raised {ee!r}', detail=src)
-                if kwkey is None and not kw_req:
-                    st = model.StdTables()
-                    st.add_json(d)
-                    reqs.append({'op': 'loadv1', 'ty': model.enc_ty(ty), 'doc': model.enc_j(d), 'std': st.build()})
-                    pend.append((case, out, built))
+                        cname, missing = exp
+                        if out[0] == 'ok':
+                            ctx.fail('absent:v1:no-error', case, f'required field(s) {missing} of {cname} deleted, but the v1 load returned {out[1]!r}'[:800], detail=src)
+                        elif not isinstance(out[1], MissingFields):
+                            ctx.fail('absent:v1:wrong-error', case, f'required field(s) {missing} of {cname} deleted: expected MissingFields, got '
+                                     f'{type(out[1]).__name__}: {str(out[1])[:200]}', key=kwkey, detail=src)
+                        else:
+                            e = out[1]
+                            got = sorted(e.missing_fields)
+                            if got != missing or e.class_name != cname:
+                                node = built.infos.get(cname)
+                                noinit = {f['name'] for f in node['info']['fields'] if not f.get('init', True)} if node else set()
+                                what = f'v1 MissingFields(class={e.class_name}, missing={got}), expected class={cname}, missing={missing}'
+                                if set(got) & noinit:
+                                    what += f'; init=False field(s) {sorted(set(got) & noinit)} demanded from the document'
+                                ctx.fail('absent:v1:missing-list', case, what, detail=src)
+                            try:
+                                s_ = str(e)
+                                assert isinstance(s_, str)
+                            except Exception as ee:
+                                ctx.fail('absent:v1:message', case, f'str(MissingFields) raised {ee!r}', detail=src)
+                    if kwkey is None and not kw_req:
+                        st = model.StdTables()
+                        st.add_json(d)
+                        reqs.append({'op': 'loadv1', 'ty': model.enc_ty(ty), 'doc': model.enc_j(d), 'std': st.build()})
+                        pend.append((case, out, built))
         finally:
             built.close()
         if ctx.done(idx):
